@@ -310,6 +310,35 @@ Proof.
   intros H; inversion H; subst; simpl. repeat split; auto; lia.
 Qed.
 
+Lemma pay_revisable c amount rev : pay c amount = Some rev → c_revisable rev = c_revisable c.
+Proof. unfold pay. destruct (decide _); [discriminate|]. by intros [= <-]. Qed.
+
+(** the environment step: nothing but the revisable flag of one contract changes *)
+Definition expired (s : st) (c : N) (s' : st) : Prop :=
+  accounts s' = accounts s ∧ pools s' = pools s ∧ attached s' = attached s ∧ sectors s' = sectors s ∧
+  renter_total s' = renter_total s ∧ host_total s' = host_total s ∧
+  (∀ c' con', contracts s' !! c' = Some con' →
+     ∃ con, contracts s !! c' = Some con ∧ c_renter con' = c_renter con) ∧
+  (∀ c' con, contracts s !! c' = Some con →
+     ∃ con', contracts s' !! c' = Some con' ∧ c_renter con' = c_renter con ∧ c_host con' = c_host con ∧
+             c_revnum con' = c_revnum con ∧ (c' = c → c_revisable con' = false) ∧ (c' ≠ c → con' = con)).
+
+Lemma expire_expired s c s' evs r : expire s c = (s', (evs, r)) → expired s c s' ∧ evs = [] ∧ r = ROk [].
+Proof.
+  unfold expire. destruct (contracts s !! c) as [con|] eqn:E; intros [= <- <- <-]; (split; [|done]).
+  - unfold expired, renter_total, host_total; simpl. rewrite !msum_insert, E. simpl.
+    repeat split; try done; try lia.
+    + intros c' con'. destruct (decide (c' = c)) as [->|Hne].
+      * rewrite lookup_insert. intros [= <-]. by exists con.
+      * rewrite lookup_insert_ne by done. intros H. by exists con'.
+    + intros c' con0 H0. destruct (decide (c' = c)) as [->|Hne].
+      * rewrite lookup_insert. rewrite E in H0. inversion H0; subst. exists (kill con0). by repeat split.
+      * rewrite lookup_insert_ne by done. exists con0. by repeat split.
+  - unfold expired. repeat split; try done.
+    + intros c' con' H. by exists con'.
+    + intros c' con0 H0. exists con0. repeat split; try done. intros ->. congruence.
+Qed.
+
 (** ** One step, by cases *)
 Inductive step_kind (s : st) (o : op) (s' : st) (evs : list event) (r : res) : Prop :=
 | SK_fail : s' = s → evs = [] → r = RErr → step_kind s o s' evs r
@@ -329,6 +358,7 @@ Inductive step_kind (s : st) (o : op) (s' : st) (evs : list event) (r : res) : P
     pay existing (sum_amounts deps) = Some rev →
     credit_with_contract pool s deps cid rev (rsig_of o) = Some (s', bs, evs) →
     r = ROk payload →
+    c_revisable existing = true →
     step_kind s o s' evs r
 | SK_attach es :
     o = Attach es → es ≠ [] → existsb entry_bad es = false → forallb attach_sig_ok es = true →
@@ -366,14 +396,17 @@ Proof.
   inversion H; subst. by eapply SK_read.
 Qed.
 
-Lemma step_cases s o s' evs r : step s o = (s', (evs, r)) → step_kind s o s' evs r.
+Lemma step_cases s o s' evs r : step s o = (s', (evs, r)) →
+  (∃ c, o = Expire c ∧ expired s c s' ∧ evs = [] ∧ r = ROk []) ∨ step_kind s o s' evs r.
 Proof.
-  destruct o as [cid deps rsig|pool cid keys target chal rsig|es|es|a tok sector cost|a tok sector cost|a tok sector cost]; simpl; intros H.
+  destruct o as [cid deps rsig|pool cid keys target chal rsig|es|es|a tok sector cost|a tok sector cost|a tok sector cost|c];
+    simpl; intros H; [right|right|right|right|right|right|right|left].
   - (* fund *)
     unfold fund, fail in H.
     destruct (decide (deps = [])); [inversion H; subst; by apply SK_fail|].
     destruct (existsb _ deps); [inversion H; subst; by apply SK_fail|].
     destruct (contracts s !! cid) as [existing|] eqn:Hc; [|inversion H; subst; by apply SK_fail].
+    destruct (c_revisable existing) eqn:Hrv; simpl in H; [|inversion H; subst; by apply SK_fail].
     destruct (pay existing (sum_amounts deps)) as [rev|] eqn:Hp; [|inversion H; subst; by apply SK_fail].
     destruct (verify _ _ rsig); simpl in H; [|inversion H; subst; by apply SK_fail].
     destruct (credit_with_contract false s deps cid rev rsig) as [[[s1 bs] evs1]|] eqn:Hcw;
@@ -385,6 +418,7 @@ Proof.
     destruct (decide (keys = [])); [inversion H; subst; by apply SK_fail|].
     destruct (decide (target = 0)); [inversion H; subst; by apply SK_fail|].
     destruct (contracts s !! cid) as [existing|] eqn:Hc; [|inversion H; subst; by apply SK_fail].
+    destruct (c_revisable existing) eqn:Hrv; simpl in H; [|inversion H; subst; by apply SK_fail].
     destruct (verify _ _ chal) eqn:Hch; simpl in H; [|inversion H; subst; by apply SK_fail].
     apply bool_decide_eq_true in Hch.
     set (deps := replenish_deposits target ∅ (map (λ k, (k, bal (if pool then pools s else accounts s) k)) keys)) in *.
@@ -416,6 +450,7 @@ Proof.
     destruct (debit s a cost) as [s1|] eqn:Hd; [|inversion H; subst; by apply SK_fail].
     inversion H; subst. by eapply SK_write.
   - eapply read_like_cases; eauto.
+  - exists c. split; [done|]. by apply expire_expired.
 Qed.
 
 (** ** Attachments stay duplicate free *)
@@ -498,7 +533,12 @@ Qed.
 (** ** Steps preserve the invariant *)
 Lemma step_inv s o s' evs r : inv s → wf_op o → step s o = (s', (evs, r)) → inv s'.
 Proof.
-  intros Hi Hw H. apply step_cases in H.
+  intros Hi Hw H. apply step_cases in H as [(c0 & Ho0 & Hx0 & Hev0 & Hr0)|H].
+  { destruct Hx0 as (Ea & Ep & Et & _ & _ & _ & Hb & _). split.
+    - rewrite Ea. apply (inv_acc s Hi).
+    - rewrite Ep. apply (inv_pool s Hi).
+    - rewrite Et. apply (inv_nodup s Hi).
+    - intros c' con' H'. destruct (Hb _ _ H') as (con & Hcon & ->). by apply (inv_renter s Hi c'). }
   destruct H as [-> _ _| ? ? ? ? ? ? _ -> _ _ _
                 | pool cid deps existing rev bs payload Ho Hc Hp Hcw _
                 | es -> _ _ _ -> _ _ | es -> _ _ _ -> _ _
@@ -557,7 +597,8 @@ Lemma step_ledger s o s' evs r : inv s → wf_op o → step s o = (s', (evs, r))
   renter_total s' = renter_total s - credited evs ∧
   host_total s' = host_total s + credited evs.
 Proof.
-  intros Hi Hw H. apply step_cases in H.
+  intros Hi Hw H. apply step_cases in H as [(c0 & Ho0 & Hx0 & Hev0 & Hr0)|H].
+  { destruct Hx0 as (Ea & Ep & _ & _ & Er & Eh & _). subst evs. unfold total. rewrite Ea, Ep. simpl. lia. }
   destruct H as [-> -> _| ? ? ? ? ? ? _ -> -> _ _
                 | pool cid deps existing rev bs payload Ho Hc Hp Hcw _
                 | es -> _ _ _ -> -> _ | es -> _ _ _ -> -> _
@@ -674,7 +715,7 @@ Qed.
 Theorem failed_rpc_changes_nothing s o s' evs :
   step s o = (s', (evs, RErr)) → s' = s ∧ evs = [].
 Proof.
-  intros H. apply step_cases in H.
+  intros H. apply step_cases in H as [(c0 & Ho0 & Hx0 & Hev0 & Hr0)|H]; [done|].
   destruct H as [-> -> _| ? ? ? ? ? ? _ _ _ Hr _ | ? ? ? ? ? ? ? _ _ _ _ Hr
                 | ? _ _ _ _ _ _ Hr | ? _ _ _ _ _ _ Hr | ? ? ? ? ? _ _ _ _ _ _ Hr | ? ? ? ? ? _ _ _ _ _ Hr];
     done.
@@ -702,7 +743,8 @@ Theorem debit_precedes_service s o s' evs r e :
   ∃ a cost, charge o = Some (a, cost) ∧ evs = [EvDebit a cost; e] ∧ r = ROk [] ∧
             cost ≤ drawable s a ∧ total s' = total s - cost.
 Proof.
-  intros Hi Hw H He Hs. apply step_cases in H.
+  intros Hi Hw H He Hs. apply step_cases in H as [(c0 & Ho0 & Hx0 & Hev0 & Hr0)|H].
+  { subst evs. by apply elem_of_nil in He. }
   destruct H as [_ -> _| ? ? ? ? ? ? _ _ -> _ _
                 | pool cid deps existing rev bs payload Ho Hc Hp Hcw _
                 | es -> _ _ _ _ -> _ | es -> _ _ _ _ -> _
@@ -739,7 +781,8 @@ Theorem debit_equals_price s o s' evs r :
   | None => debited evs = 0
   end.
 Proof.
-  intros Hi Hw H. pose proof H as H0. apply step_cases in H.
+  intros Hi Hw H. pose proof H as H0. apply step_cases in H as [(c0 & Ho0 & Hx0 & Hev0 & Hr0)|H].
+  { by subst. }
   destruct H as [-> -> ->| ? ? ? ? ? ? -> _ -> _ _
                 | pool cid deps existing rev bs payload Ho Hc Hp Hcw _
                 | es -> _ _ _ _ -> _ | es -> _ _ _ _ -> _
@@ -795,7 +838,8 @@ Theorem debit_order s o s' evs r a cost :
      bal (pools s') p = bal (pools s) p -
        Z.min (bal (pools s) p) (Z.max 0 (cost - bal (accounts s) a - pool_sum (pools s) pre))).
 Proof.
-  intros Hi Hw H Hc Hr. apply step_cases in H.
+  intros Hi Hw H Hc Hr. apply step_cases in H as [(c0 & Ho0 & Hx0 & Hev0 & Hr0)|H].
+  { by subst. }
   destruct H as [_ _ ->| ? ? ? ? ? ? -> _ _ _ _
                 | pool cid deps existing rev bs payload Ho _ _ _ _
                 | es -> _ _ _ _ _ _ | es -> _ _ _ _ _ _
@@ -834,7 +878,7 @@ Theorem replenish_to_target s pool cid keys target chal rsig s' evs r :
            else bal (if pool then pools s else accounts s) k) ∧
      (if pool then accounts s' = accounts s else pools s' = pools s)).
 Proof.
-  intros H. apply step_cases in H.
+  intros H. apply step_cases in H as [(c0 & Ho0 & Hx0 & Hev0 & Hr0)|H]; [done|].
   destruct H as [-> _ ->| pool' cid' keys' target' chal' rsig' Ho -> _ -> Hz
                 | pool' cid' deps existing rev bs payload Ho Hc Hp Hcw ->
                 | es Ho _ _ _ _ _ _ | es Ho _ _ _ _ _ _
@@ -893,7 +937,8 @@ Theorem attach_detach_need_signature s o s' evs r :
   (∃ es, o = Attach es ∧ Forall attach_authorized es) ∨
   (∃ es, o = Detach es ∧ Forall detach_authorized es).
 Proof.
-  intros H Hne. apply step_cases in H.
+  intros H Hne. apply step_cases in H as [(c0 & Ho0 & Hx0 & Hev0 & Hr0)|H].
+  { destruct Hx0 as (_ & _ & Et & _). by rewrite Et in Hne. }
   destruct H as [-> _ _| ? ? ? ? ? ? _ -> _ _ _
                 | pool cid deps existing rev bs payload _ _ _ Hcw _
                 | es -> _ Hb Hs _ _ _ | es -> _ Hb Hs _ _ _
@@ -919,7 +964,7 @@ Theorem attach_detach_keep_balances s es s' evs r :
   accounts s' = accounts s ∧ pools s' = pools s ∧ contracts s' = contracts s ∧
   credited evs = 0 ∧ debited evs = 0.
 Proof.
-  intros [H|H]; apply step_cases in H;
+  intros [H|H]; apply step_cases in H as [(c0 & Ho0 & Hx0 & Hev0 & Hr0)|H]; try done;
   (destruct H as [-> -> _| ? ? ? ? ? ? Ho _ _ _ _
                 | pool cid deps existing rev bs payload Ho _ _ _ _
                 | es' Ho _ _ _ -> -> _ | es' Ho _ _ _ -> -> _
@@ -944,11 +989,13 @@ Theorem credit_matched_by_signed_revision s o s' evs r :
     c_revnum rev = N.succ (c_revnum existing) ∧
     c_rkey rev = c_rkey existing ∧
     0 ≤ c_renter rev ∧
+    c_revisable existing = true ∧ c_revisable rev = true ∧
     rsig_of o = Sig (c_rkey existing) (MRevision cid (c_revnum rev) (c_renter rev) (c_host rev)).
 Proof.
-  intros H Hcr. apply step_cases in H.
+  intros H Hcr. apply step_cases in H as [(c0 & Ho0 & Hx0 & Hev0 & Hr0)|H].
+  { subst evs. destruct Hcr as [Hcr|(? & ? & ? & Hin)]; [done|by apply elem_of_nil in Hin]. }
   destruct H as [_ -> _| ? ? ? ? ? ? _ _ -> _ _
-                | pool cid deps existing rev bs payload Ho Hc Hp Hcw _
+                | pool cid deps existing rev bs payload Ho Hc Hp Hcw _ Hrv
                 | es _ _ _ _ _ -> _ | es _ _ _ _ _ -> _
                 | a tok sector cost s1 _ _ _ _ _ -> _
                 | a tok sector cost s1 _ _ _ _ -> _].
@@ -956,6 +1003,7 @@ Proof.
   - destruct Hcr as [Hcr|(? & ? & ? & Hin)]; [done|by apply elem_of_nil in Hin].
   - apply cwc_spec in Hcw as (ex & Hex & Hsig & -> & Hcs & _).
     rewrite Hc in Hex. inversion Hex; subst ex. clear Hex.
+    pose proof (pay_revisable _ _ _ Hp) as Hrv'. rewrite Hrv in Hrv'.
     apply pay_spec in Hp as (Hle & Hk & Hn & Hr & Hh).
     exists pool, cid, deps, existing, rev.
     rewrite credited_app, credited_credits. simpl.
@@ -979,7 +1027,8 @@ Theorem balances_change_only_by_credit_or_debit s o s' evs r :
   step s o = (s', (evs, r)) → accounts s' ≠ accounts s ∨ pools s' ≠ pools s →
   (∃ c x y, EvRevise c x y ∈ evs) ∨ (∃ a c, charge o = Some (a, c) ∧ EvDebit a c ∈ evs).
 Proof.
-  intros H Hne. apply step_cases in H.
+  intros H Hne. apply step_cases in H as [(c0 & Ho0 & Hx0 & Hev0 & Hr0)|H].
+  { destruct Hx0 as (Ea & Ep & _). rewrite Ea, Ep in Hne. by destruct Hne. }
   destruct H as [-> _ _| ? ? ? ? ? ? _ -> _ _ _
                 | pool cid deps existing rev bs payload _ _ _ Hcw _
                 | es _ _ _ _ -> _ _ | es _ _ _ _ -> _ _
@@ -995,8 +1044,49 @@ Proof.
   - right. exists a, cost. split; [done|by left].
 Qed.
 
+(** *** C15_unrevisable_contract_not_credited: no crediting RPC succeeds against a contract
+    that is past its proof height or renewed *)
+Theorem unrevisable_contract_not_credited s o cid con :
+  contracts s !! cid = Some con → c_revisable con = false →
+  (∃ deps rsig, o = Fund cid deps rsig) ∨ (∃ pool keys target chal rsig, o = Replenish pool cid keys target chal rsig) →
+  step s o = (s, ([], RErr)).
+Proof.
+  intros Hc Hr [(deps & rsig & ->)|(pool & keys & target & chal & rsig & ->)]; simpl.
+  - unfold fund, fail. destruct (decide (deps = [])); [done|]. destruct (existsb _ deps); [done|].
+    by rewrite Hc, Hr.
+  - unfold replenish, fail. destruct (decide (keys = [])); [done|]. destruct (decide (target = 0)); [done|].
+    by rewrite Hc, Hr.
+Qed.
+
+(** *** C15_unrevisable_contract_frozen: once unrevisable, a contract stays so and its
+    outputs and revision number never change again *)
+Theorem unrevisable_contract_frozen s o s' out cid con :
+  contracts s !! cid = Some con → c_revisable con = false → step s o = (s', out) →
+  ∃ con', contracts s' !! cid = Some con' ∧ c_revisable con' = false ∧
+          c_renter con' = c_renter con ∧ c_host con' = c_host con ∧ c_revnum con' = c_revnum con.
+Proof.
+  intros Hc Hr H. destruct out as [evs r].
+  apply step_cases in H as [(c0 & Ho0 & Hx0 & Hev0 & Hr0)|H].
+  { destruct Hx0 as (_ & _ & _ & _ & _ & _ & _ & Hf). destruct (Hf _ _ Hc) as (con' & H1 & H2 & H3 & H4 & H5 & H6).
+    exists con'. destruct (decide (cid = c0)) as [->|Hne].
+    - repeat split; auto.
+    - rewrite (H6 Hne) in *. repeat split; auto. }
+  destruct H as [-> _ _| ? ? ? ? ? ? _ -> _ _ _
+                | pool cid' deps existing rev bs payload _ Hc' _ Hcw _ Hrv
+                | es _ _ _ _ -> _ _ | es _ _ _ _ -> _ _
+                | a tok sector cost s1 _ _ _ Hd -> _ _
+                | a tok sector cost s1 _ _ Hd -> _ _]; try (by exists con).
+  - apply cwc_spec in Hcw as (_ & _ & _ & _ & Hcs & _). rewrite Hcs.
+    destruct (decide (cid = cid')) as [->|Hne]; [congruence|].
+    rewrite lookup_insert_ne by done. by exists con.
+  - exists con. unfold debit in Hd. destruct (decide _); [discriminate|].
+    destruct (decide (bal (accounts s) a = 0)); destruct (drain _ _ _); inversion Hd; subst; by simpl.
+  - exists con. unfold debit in Hd. destruct (decide _); [discriminate|].
+    destruct (decide (bal (accounts s) a = 0)); destruct (drain _ _ _); inversion Hd; subst; by simpl.
+Qed.
+
 (** ** Non-vacuity: a concrete reachable state that meets the hypotheses of every implication *)
-Definition ex_cs : gmap N contract := {[ 0%N := Contract 100 5 1000 2000 ]}.
+Definition ex_cs : gmap N contract := {[ 0%N := Contract 100 5 1000 2000 true ]}.
 Definition ex_tok (a : N) : token := Token 1 false (Sig a (MToken a 1)).
 Definition ex_ops : list op := [
   Fund 0 [(1%N, 10); (2%N, 4)] (Sig 100 (MRevision 0 6 986 2014));
@@ -1138,7 +1228,7 @@ Theorem detach_preserves_order s es s' evs r :
   (r = RErr → ∀ a, links s' a = links s a) ∧
   (r ≠ RErr → ∀ a, links s' a = filter (λ q, (a, q) ∉ link_pairs es) (links s a)).
 Proof.
-  intros Hi H. apply step_cases in H.
+  intros Hi H. apply step_cases in H as [(c0 & Ho0 & Hx0 & Hev0 & Hr0)|H]; [done|].
   destruct H as [-> _ ->| ? ? ? ? ? ? Ho _ _ _ _
                 | pool cid deps existing rev bs payload Ho _ _ _ _
                 | es' Ho _ _ _ _ _ _ | es' Ho _ _ _ -> _ ->
@@ -1213,7 +1303,7 @@ Theorem attach_appends s es s' evs r :
   ∀ a, links s a `prefix_of` links s' a ∧
        ∀ q, q ∈ links s' a ↔ q ∈ links s a ∨ (r ≠ RErr ∧ (a, q) ∈ link_pairs es).
 Proof.
-  intros H a. apply step_cases in H.
+  intros H a. apply step_cases in H as [(c0 & Ho0 & Hx0 & Hev0 & Hr0)|H]; [done|].
   destruct H as [-> _ ->| ? ? ? ? ? ? Ho _ _ _ _
                 | pool cid deps existing rev bs payload Ho _ _ _ _
                 | es' Ho _ _ _ -> _ -> | es' Ho _ _ _ _ _ _
@@ -1235,3 +1325,13 @@ Example ex_detach_keeps_order :
   links (step ex_s (Attach [Entry 2 4 1 false (Sig 4 (MAttach 2 4 1)); Entry 2 3 1 false (Sig 3 (MAttach 2 3 1))])).1 2
     = [4%N; 3%N].
 Proof. vm_compute. repeat split; discriminate. Qed.
+
+(** once contract 0 has expired, funding and replenishing from it are refused *)
+Example ex_expired_contract :
+  let s1 := (step ex_s (Expire 0)).1 in
+  (step ex_s (Expire 0)).2 = ([], ROk []) ∧
+  (∃ con, contracts s1 !! 0%N = Some con ∧ c_revisable con = false ∧ c_renter con = 972) ∧
+  (step s1 (Fund 0 [(1%N, 5)] (Sig 100 (MRevision 0 8 967 2033)))).2 = ([], RErr) ∧
+  (step s1 (Replenish true 0 [3%N] 9 (Sig 100 (MChallenge 0 [3%N] 9 7)) (Sig 100 (MRevision 0 8 968 2032)))).2 = ([], RErr) ∧
+  (step ex_s (Fund 0 [(1%N, 5)] (Sig 100 (MRevision 0 8 967 2033)))).2.2 = ROk [5].
+Proof. vm_compute. repeat split. eexists. repeat split. Qed.
